@@ -1,5 +1,5 @@
 """helpers shared by the property modules"""
-import importlib, time
+import importlib, os, time
 from ..contract import REGISTRY, Verdict
 
 CONTRACT_MODULES = ['operation', 'mps', 'mpo', 'arith']
@@ -109,12 +109,42 @@ def deductive_all(prop, tier='quick'):
         for t in tasks:
             out += _task(*t)
         return out
+    # one forked worker per group with a hard wall-clock budget: a change of the code under verification must not be able to
+    # hang the check (path explosion, solver); a group that exceeds the budget is *undecided*
+    budget = float(os.environ.get('VT_DEDUCTIVE_BUDGET', '420' if tier == 'quick' else '1500'))
+    ctx = mp.get_context('fork')
+    def work(conn, t):
+        try:
+            conn.send(_task(*t))
+        except Exception as e:
+            conn.send([Verdict(f'group[{t[0]}{t[3] or ""}]', t[0] if t[0] in 'TZFL' else 'Z', 'undecided', f'worker failed: {type(e).__name__}: {e}', 0, '', 'ensures')])
+        finally:
+            conn.close()
+    procs = []
+    sem = min(10, len(tasks))
+    pending = list(tasks); running = []
     out = []
-    with cf.ProcessPoolExecutor(max_workers=min(8, len(tasks)), mp_context=mp.get_context('fork')) as pool:
-        futs = [pool.submit(_task, *t) for t in tasks]
-        for f, t in zip(futs, tasks):
-            try:
-                out += f.result(timeout=1200)
-            except Exception as e:
-                out.append(Verdict(f'group[{t[0]}{t[3] or ""}]', t[0] if t[0] != 'S' else 'Z', 'undecided', f'worker failed: {type(e).__name__}: {e}', 0, '', 'ensures'))
+    t_start = time.time()
+    while pending or running:
+        while pending and len(running) < sem:
+            t = pending.pop(0)
+            rcv, snd = ctx.Pipe(duplex=False)
+            pr = ctx.Process(target=work, args=(snd, t), daemon=True)
+            pr.start(); snd.close()
+            running.append((pr, rcv, t, time.time()))
+        for item in list(running):
+            pr, rcv, t, t0 = item
+            if rcv.poll(0.05):
+                try:
+                    out += rcv.recv()
+                except EOFError:
+                    out.append(Verdict(f'group[{t[0]}{t[3] or ""}]', 'Z', 'undecided', 'worker died', 0, '', 'ensures'))
+                pr.join(1); running.remove(item)
+            elif not pr.is_alive():
+                out.append(Verdict(f'group[{t[0]}{t[3] or ""}]', 'Z', 'undecided', 'worker died without a result', 0, '', 'ensures'))
+                running.remove(item)
+            elif time.time() - t_start > budget:
+                pr.terminate(); pr.join(2)
+                out.append(Verdict(f'group[{t[0]}{t[3] or ""}]', 'Z', 'undecided', f'deductive group exceeded the wall-clock budget of {budget:.0f}s', 0, '', 'ensures'))
+                running.remove(item)
     return out
